@@ -883,12 +883,13 @@ static bool keyblock_verdict(const Oct &block)
 	TMCG_OpenPGP_Pubkey *pub = NULL; bool ok = false;
 	PGP::MemoryGuardReset();
 	QuietCerr q;
+	// on failure PublicKeyBlockParse has deleted the key on some paths (leaving `pub` dangling) and not on others:
+	// the object is released here only after a successful parse
 	if (PGP::PublicKeyBlockParse(block, 0, pub) && pub) {
 		TMCG_OpenPGP_Keyring *ring = new TMCG_OpenPGP_Keyring();
 		ok = pub->CheckSelfSignatures(ring, 0) && pub->valid && pub->userids.size() == 1 && pub->userids[0]->valid;
-		delete ring;
+		delete ring; delete pub;
 	}
-	delete pub;
 	return ok;
 }
 static void keyblock_cases(SplitMix &g, const TestKey &k, int hashalgo, bool all_positions, time_t now)
